@@ -223,6 +223,34 @@ func c20(r *core.Run) {
 				as = append(as, core.Assumption{Var: core.BoolVar{Call: v}, Val: false})
 			}
 		}
+		// a same-package predicate helper that can only return true when one of the two atree tests holds is false as well
+		for _, c := range core.Calls(fn, false) {
+			sf := core.StaticFn(c)
+			v, isVal := c.(ssa.Value)
+			if sf == nil || !isVal || sf.Pkg != fn.Pkg || len(sf.Blocks) == 0 {
+				continue
+			}
+			grounds, isBool := core.AcceptGrounds(sf)
+			if !isBool || len(grounds) == 0 {
+				continue
+			}
+			all := true
+			for _, g := range grounds {
+				needs := false
+				for _, conj := range strings.Split(g, " ∧ ") {
+					if (strings.HasPrefix(conj, "+IsWithinSingleSlab") || strings.HasPrefix(conj, "+CanCopyNonRefSimple") ||
+						strings.HasPrefix(conj, "=>IsWithinSingleSlab") || strings.HasPrefix(conj, "=>CanCopyNonRefSimple")) {
+						needs = true
+					}
+				}
+				if !needs {
+					all = false
+				}
+			}
+			if all {
+				as = append(as, core.Assumption{Var: core.BoolVar{Call: v}, Val: false})
+			}
+		}
 		isCopy := func(in ssa.Instruction) bool {
 			return core.CallReaches(in, func(cc ssa.CallInstruction) bool {
 				o := core.Callee(cc)
